@@ -3,6 +3,8 @@ package c15
 import (
 	"context"
 	"fmt"
+	"os"
+	"path/filepath"
 	"sort"
 	"strings"
 	"testing"
@@ -16,13 +18,14 @@ import (
 	"verifharness/pmodel"
 )
 
-func TestMain(m *testing.M) { pbt.Main(m, "C15") }
+func TestMain(m *testing.M)   { pbt.Main(m, "C15") }
 func TestReplay(t *testing.T) { pbt.Replay(t) }
 
 type Case struct {
 	Schema pmodel.Schema `json:"schema"`
-	Mode   int           `json:"mode"` // meta.ParseServiceMode
-	Reuse  bool          `json:"reuse"` // the includes map served another schema under the same file name before
+	Mode   int           `json:"mode"`      // meta.ParseServiceMode
+	Reuse  bool          `json:"reuse"`     // the includes map served another schema under the same file name before
+	Path   bool          `json:"from_path"` // the schema is read from files (NewDescriptorFromPath, main file given as written, imports through an import directory)
 }
 
 var kindType = map[protoreflect.Kind]dproto.Type{
@@ -34,9 +37,9 @@ var kindType = map[protoreflect.Kind]dproto.Type{
 }
 
 type walker struct {
-	c    *pbt.Ctx
-	seen map[string]bool // (descriptor pointer, reference full name) pairs already compared
-	n    int
+	c        *pbt.Ctx
+	seen     map[string]bool // (descriptor pointer, reference full name) pairs already compared
+	n        int
 	sameName bool
 }
 
@@ -217,10 +220,51 @@ func check(c *pbt.Ctx, cs Case) {
 		}
 		c.Class("includes-map-reused")
 	}
-	c.Step("NewDescriptorFromContent mode=%d", cs.Mode)
-	svc, err := dproto.Options{ParseServiceMode: mode}.NewDesccriptorFromContent(context.Background(), cs.Schema.Main, files[cs.Schema.Main], inc)
-	if err != nil {
-		c.Failf("idl-error", "dynamicgo rejects a schema the reference accepts: %v\n%s", err, files[cs.Schema.Main])
+	var svc *dproto.ServiceDescriptor
+	if cs.Path {
+		// the files on disk: the main file is named as written (a path relative to the working directory), the imports are
+		// found through the first import directory; a later import directory holds, under the same relative name, another
+		// file - the path as written comes first
+		c.Step("NewDescriptorFromPath mode=%d", cs.Mode)
+		c.Class("from-path")
+		dir, derr := os.MkdirTemp("", "c15-*")
+		if derr != nil {
+			c.Failf("harness-io", "%v", derr)
+		}
+		defer os.RemoveAll(dir)
+		src, vendor := filepath.Join(dir, "src", "p", "q", "r", "s"), filepath.Join(dir, "v", "a", "b", "c", "d", "e", "f", "g", "h", "i", "j", "k")
+		for name, text := range files {
+			fp := filepath.Join(src, name)
+			if err := os.MkdirAll(filepath.Dir(fp), 0o755); err != nil {
+				c.Failf("harness-io", "%v", err)
+			}
+			if err := os.WriteFile(fp, []byte(text), 0o644); err != nil {
+				c.Failf("harness-io", "%v", err)
+			}
+		}
+		cwd, _ := os.Getwd()
+		mainPath := filepath.Join(src, cs.Schema.Main)
+		if rel, rerr := filepath.Rel(cwd, mainPath); rerr == nil {
+			mainPath = rel
+			decoyAt := filepath.Join(vendor, rel)
+			if strings.HasPrefix(decoyAt, dir+string(filepath.Separator)) {
+				decoy := "syntax = \"proto3\";\npackage decoy;\nmessage Root { int32 zz = 1; string count = 2; }\nservice Decoy { rpc Only(Root) returns (Root); }\n"
+				if err := os.MkdirAll(filepath.Dir(decoyAt), 0o755); err == nil {
+					_ = os.WriteFile(decoyAt, []byte(decoy), 0o644)
+					c.Class("from-path:shadow-in-import-dir")
+				}
+			}
+		}
+		svc, err = dproto.Options{ParseServiceMode: mode}.NewDescriptorFromPath(context.Background(), mainPath, src, vendor)
+		if err != nil {
+			c.Failf("idl-error", "NewDescriptorFromPath rejects a schema the reference accepts: %v\n%s", err, files[cs.Schema.Main])
+		}
+	} else {
+		c.Step("NewDescriptorFromContent mode=%d", cs.Mode)
+		svc, err = dproto.Options{ParseServiceMode: mode}.NewDesccriptorFromContent(context.Background(), cs.Schema.Main, files[cs.Schema.Main], inc)
+		if err != nil {
+			c.Failf("idl-error", "dynamicgo rejects a schema the reference accepts: %v\n%s", err, files[cs.Schema.Main])
+		}
 	}
 	// expected methods per mode
 	rsvcs := comp.RFile.Services()
@@ -452,7 +496,7 @@ var Prop = pbt.Register(pbt.Prop[Case]{
 	Name: "TestProtoDescriptors",
 	Rule: "generated proto3 files (main package + imported package; nested message declarations; field names whose 32-bit DJB hash is 0, also as the only field of a message; the simple name Item declared in up to five scopes: A.Item, A.Item.Item, B.Item, pkg.Item, other.sub.Item; map fields with equal names in different messages; relative, qualified and fully-qualified type references; recursion; every map key kind; 1..3 services with unary/streaming methods) x ParseServiceMode; the dynamicgo descriptor graph is walked in parallel with protobuf-go's descriptors (built from jhump protoparse output): method set and streaming flags, per reachable message exactly the declared fields (their count, number, name, JSON name, kind, list/map structure, packedness, key kind), message-typed fields must describe the fully-qualified type the schema names; ByNumber over 0..max+2 (field numbers up to 131073), over every declared number shifted by multiples of 2^16 / 2^24 / 2^28 and negated, and ByName/ByJSONName over a key family must find a field iff declared; non-trivial = a simple message name reached under two different full names",
 	Gen: func(t *rapid.T) Case {
-		return Case{Schema: genSchema(t), Mode: rapid.IntRange(0, 2).Draw(t, "mode"), Reuse: rapid.Bool().Draw(t, "reuse")}
+		return Case{Schema: genSchema(t), Mode: rapid.IntRange(0, 2).Draw(t, "mode"), Reuse: rapid.Bool().Draw(t, "reuse"), Path: rapid.IntRange(0, 3).Draw(t, "fromPath") == 0}
 	},
 	Check: check,
 })
